@@ -1018,10 +1018,6 @@ def check_backup(fn):
                              'after save-for-backup and back-up the scanner variable %s holds %s instead of its own saved value: the scanner resumes after the '
                              'longest match with a corrupted input position' % (k, _describe(v))))
     # without a saved accepting state the result is "no action"
-    act = None
-    for b, v in zip(s_t, save.value.elts):
-        pass
-    # the variable restored from the first saved slot that was saved from the `action` local
     none_init = [a for a in _tuple_assigns(fn) if a not in (save, restore) and [e.id for e in a.targets[0].elts] == s_t and a.lineno < loop.lineno]
     info = dict(save=save, restore=restore, loop=loop, saved=s_t, restored=r_t)
     # which saved slot guards the restore?
@@ -1625,12 +1621,6 @@ def rule_closure(px):
     r.positive_control(not closed(pcx.args[1]), 'targets merged without epsilon closure')
     # epsilon filter around the add_set
     add = adds[0]
-    chain = _enclosing_if(fn, add)
-    outer_for = None
-    for n in walk_no_nested(fn):
-        if isinstance(n, ast.For) and any(x is add for x in ast.walk(n)) and isinstance(n.target, ast.Tuple) and len(n.target.elts) == 2 \
-                and all(isinstance(e, ast.Name) for e in n.target.elts):
-            outer_for = n       # innermost wins (walk order is not nesting order; take the one with the largest lineno)
     cands = [n for n in walk_no_nested(fn) if isinstance(n, ast.For) and any(x is add for x in ast.walk(n)) and isinstance(n.target, ast.Tuple)
              and len(n.target.elts) == 2 and all(isinstance(e, ast.Name) for e in n.target.elts)]
     r.inst('DFA.nfa_to_dfa:epsilon-filter')
